@@ -249,6 +249,13 @@ def run_job(job):
                         asts[2] = ("bin", base[3][1], ("bin", base[1], base[2], base[3][2]), base[3][3])
                 elif base[0] == "fn" and len(base[2]) == 2:
                     asts[1] = ("fn", base[1], [base[2][0], ("lit", 77)])
+            directed = None
+            if members and rng.random() < 0.5:
+                # a call whose later argument is a column (also negated): evaluable for zip members too
+                directed = rng.choice([("fn", "least", [("lit", 50), ("col", "size")]), ("fn", "greatest", [("lit", -1000), ("neg", ("col", "size"))]),
+                                       ("fn", "least", [("bin", "+", ("col", "size"), ("lit", 1)), ("bin", "*", ("col", "size"), ("lit", 2))]),
+                                       ("fn", "greatest", [("lit", 5), ("bin", "-", ("col", "size"), ("lit", 3))])])
+                asts[rng.randrange(len(asts))] = directed
             texts = [render(a, rng, words=words) for a in asts]
             if rng.random() < 0.15:
                 # a quoted text literal spelling the display name of a column selected next to it
@@ -326,7 +333,7 @@ def run_job(job):
             with_col = [x for x in asts if "'col'" in repr(x) and x[0] != "text"]
             if not with_col:
                 continue
-            a = rng.choice(with_col)     # a bare literal is text, not an expression value
+            a = directed if directed in with_col else rng.choice(with_col)     # a bare literal is text, not an expression value
             t = texts[asts.index(a)]
             vals = [ev(a, envs[p]) for p in table if p in envs]
             finite = [v for v in vals if v is not None and v == v and abs(v) != float("inf")]
